@@ -24,6 +24,7 @@ def log(*a):
 def go_env():
     e = dict(os.environ)
     e.update(GOFLAGS='-mod=mod', GOPROXY='off', GOSUMDB='off', GOTOOLCHAIN='local', CGO_ENABLED=e.get('CGO_ENABLED', '1'))
+    e['MPV_REPO'] = REPO  # the generators read the new constants of this source tree (harness/consts.go)
     return e
 
 
